@@ -1366,6 +1366,24 @@ def oracle_c11(sc, res):
                 vios.append(Violation("C11", "history-restore-mismatch", sig,
                                       f"{t.tid} -> {h.id}: expected under {P.id} {sorted(exp)}, got {sorted(actual)} (recorded {sorted(rec) if rec else None})"))
                 continue
+            # whatever the transition enters OUTSIDE the history state's parent is entered normally: a sibling region of an
+            # enclosing parallel state that was not active before gets its default configuration, not a remembered one
+            A = P.parent
+            below = P
+            while A is not None:
+                if A.kind == "parallel" and A.id not in pre:
+                    for reg in A.regions():
+                        if reg is below:
+                            continue
+                        want_reg = {x.id for x in m.descend(reg)} | {reg.id}
+                        got_reg = {i for i in r[10] if m.node(i) is not None and m.node(i).is_descendant_of(reg, strict=False)}
+                        if got_reg != want_reg:
+                            vios.append(Violation("C11", "history-transition-disturbed-other-region", sig,
+                                                  f"{t.tid} -> {h.id}: region {reg.id} (entered by the same transition, normally) has "
+                                                  f"{sorted(got_reg)}, expected its default configuration {sorted(want_reg)}"))
+                            break
+                below = A
+                A = A.parent
             under = [e for e in entries if m.node(e) is not None and m.node(e).is_descendant_of(P, strict=False)]
             dup = sorted({e for e in under if under.count(e) > 1})
             if dup:
